@@ -5,7 +5,7 @@ from props.common import TRUSTED_BASE, ASSUMPTIONS as _A
 
 ID = 'C18'
 LEAN_MODULES = ['HidVerif.Props.C18']
-THEOREMS = ['HidVerif.Props.C18.' + n for n in ('step_deterministic', 'run_deterministic', 'entry_guard_monotone')]
+THEOREMS = ['HidVerif.Props.C18.' + n for n in ('step_deterministic', 'run_deterministic', 'entry_guard_monotone', 'core_larger_stack_same')]
 TRUSTED = TRUSTED_BASE
 ASSUMPTIONS = _A + ['RUNTIME BEHAVIOUR NOT MODELLED: that the hidc process is a function of (source, options) is observed by compiling in '
                     'fresh interpreters under different PYTHONHASHSEED values, not proved',
@@ -38,6 +38,10 @@ def run(ctx):
     for n in suites.EXAMPLES:
         path = os.path.join(hidlib.REPO, 'examples', n + '.hid')
         if os.path.exists(path): progs.append((open(path, encoding='utf-8').read(), suites.EXAMPLES[n]))
+    # the verified core (C18.core_larger_stack_same is about Compiler/Core.lean): its tie to the real compiler; the same programs
+    # (helper functions, recursion, arguments) take part in every comparison below
+    cj = suites.core_suite(ctx, ctx.budget(60, 600), configs=((2, 100, False), (4, 30, False)), faults=0.0)
+    progs += [(j[1], list(j[2])) for j in cj[:ctx.budget(30, 300)]]
     # (a) determinism across processes
     items = []
     for src, _ in progs:
@@ -139,7 +143,7 @@ def run(ctx):
                 ctx.violations.append(dict(what='--lint changed the generated code', kind='LINT', source=src, args=[], config=dict(lint=True)))
     ctx.stats['lint'] = dict(rejected=lint_rej, identical=lint_same, different=lint_diff)
     ctx.say('word sizes: same=%d different=%d; lint: rejected=%d identical=%d different=%d' % (wsame, wbad, lint_rej, lint_same, lint_diff))
-    ctx.stats['evaluations'] = len(items) * 3 + len(runs) + len(wc)
+    ctx.stats['evaluations'] = ctx.stats.get('evaluations', 0) + len(items) * 3 + len(runs) + len(wc)
     ctx.stats['distinct_nontrivial'] = same + wsame + lint_same
     ctx.samples.append(dict(program=progs[0][0][:600]))
 
